@@ -103,7 +103,9 @@ def reqresp_oracle(ix: Index, scn: dict) -> list[Violation]:
         if err.get("cls") == "TimeoutAPIError":
             if abs(op.t1 - t_deadline) > 1e-6 * max(1.0, timeout):
                 out.append(Violation("timeout-time", "", f"{op.actor} timed out at t={op.t1:.9f}, expected exactly {t_deadline:.9f} (issued {op.t0:.9f} + {timeout})"))
-            if stop_key is not None and stop_key[2] < t_deadline - 1e-9 and stop_key[0] < end_turn - 1:
+            # within one turn I/O callbacks run before due timers: a stop message dispatched in the turn in which the
+            # timeout timer fired (end_turn - 1) completed the call first, also when the loop was stalled past the deadline
+            if stop_key is not None and stop_key[0] <= end_turn - 1:
                 out.append(Violation("timeout-despite-response", "", f"{op.actor} timed out although its stop message was delivered at t={stop_key[2]:.6f} (turn {stop_key[0]}) before the deadline {t_deadline:.6f}"))
             continue
         if not wrote and not err.get("api"):
@@ -117,7 +119,7 @@ def reqresp_oracle(ix: Index, scn: dict) -> list[Violation]:
             continue
         if not err.get("api"):
             out.append(Violation("error-class", str(err.get("cls")), f"{op.actor} raised non-API {err.get('cls')} on connection loss"))
-        if stop_key is not None and stop_key[0] < closed_turn:
+        if stop_key is not None and stop_key[1] < closed:
             out.append(Violation("error-despite-response", "", f"{op.actor} failed with {err.get('cls')} although its stop message had been delivered at turn {stop_key[0]} before the close at turn {closed_turn}"))
     # nothing left behind, however the call ended: a few zero-time turns after each call ended, every request timeout
     # timer still armed belongs to a call that is still running
